@@ -27,6 +27,8 @@ You are in a scratch git worktree of the Go library volatiletech/authboss (modul
 
     export GOFLAGS=-mod=mod GOPROXY=off GOSUMDB=off GOTOOLCHAIN=local; unset GOWORK
 
+Do not use `git stash` (the stash is shared with other worktrees of the same repository); undo changes with `git apply -R <patch>` or `git checkout -- .`.
+
 Produce SIX independent **behaviour-preserving** refactorings of the library's non-test source in this area: {area}. (You may touch other non-test files when a refactoring needs it, but the centre of each patch is in this area. Do not touch the mocks package or any test file.)
 
 Behaviour-preserving means: for every input, configuration, storage behaviour, fault and sequence of requests the library does exactly what it did before — same responses, same session/cookie changes in the same order, same storage calls in the same order with the same arguments, same events fired in the same order, same errors returned, same log lines. Only the shape of the code changes. Be careful: when in doubt whether an edit changes behaviour in some corner (nil maps, evaluation order, shadowed variables, an error that used to be returned and now is not, a call that now happens earlier or twice), do not make it.
